@@ -52,6 +52,9 @@ pub enum Scenario {
     /// stalled objects in a session that stays busy: complete FDT instances (listing other objects) and
     /// packets of another object keep arriving more often than the object timeout, cleanup after each
     Busy { stalled: u16, timeout_ms: u64, other_object: bool },
+    /// idle sessions (stalled objects, no object timeout) while cleanup() is called periodically, more
+    /// often than the session timeout, as an application loop does
+    Periodic { sessions: u16, timeout_ms: u64 },
 }
 
 const SLACK: isize = 96 << 10;
@@ -327,6 +330,47 @@ pub fn run_scenario(s: &Scenario) -> CaseResult {
             info.label("stalled objects in a busy session");
             drop(rx);
         }
+        Scenario::Periodic { sessions, timeout_ms } => {
+            let spec = RxSpec { object_timeout_ms: None, session_timeout_ms: Some(*timeout_ms), cleanup_each_push: false, ..RxSpec::default_once() };
+            let mut rx = Rx::new(&spec, Faults::none());
+            let body = vec![0x88u8; 100];
+            for s in 0..(*sessions as u64).max(1) {
+                // one stalled object per session: a symbol is missing and no FDT ever comes
+                rx.push(&pkt(40 + s, 7, vec![nocode_fti(200, 100, 4)], 0, 0, &body, false), now(s));
+            }
+            let idle_since = std::time::Instant::now();
+            let before = rx.mr.nb_objects();
+            let gap = Duration::from_millis((*timeout_ms / 4).max(1));
+            let mut calls = 0u32;
+            let mut in_window = 0u32;
+            let mut last = std::time::Instant::now();
+            while idle_since.elapsed() < Duration::from_millis(2 * *timeout_ms + 30) {
+                std::thread::sleep(gap);
+                rx.mr.cleanup(now(1000 + calls as u64));
+                calls += 1;
+                if last.elapsed() < Duration::from_millis(*timeout_ms) {
+                    in_window += 1;
+                }
+                last = std::time::Instant::now();
+            }
+            rx.mr.cleanup(now(2000 + calls as u64));
+            let left = rx.mr.nb_objects();
+            if left > 0 {
+                return Err(format!(
+                    "{} sessions have been silent for {} ms (session timeout {} ms, no object timeout); cleanup() was called {} times in between (every {} ms) and their {} stalled objects are still held: nb_objects() = {}",
+                    sessions,
+                    idle_since.elapsed().as_millis(),
+                    timeout_ms,
+                    calls,
+                    gap.as_millis(),
+                    before,
+                    left
+                ));
+            }
+            info.nt(before > 0 && in_window >= 2);
+            info.label("idle sessions under periodic cleanup");
+            drop(rx);
+        }
     }
     Ok(info)
 }
@@ -339,6 +383,7 @@ pub fn scenario_strategy() -> BoxedStrategy<Scenario> {
         2 => (0usize..9, 1u16..40, any::<bool>()).prop_map(|(track, objects, cleanup_each)| Scenario::Errors { track, objects, cleanup_each }),
         2 => (0u16..12, 0u16..12, 1u16..4, any::<bool>(), 2u64..8).prop_map(|(stalled, fdt_ids, sessions, session_timeout, timeout_ms)| Scenario::Cleanup { stalled, fdt_ids, sessions, session_timeout, timeout_ms }),
         1 => (1u16..8, 20u64..41, any::<bool>()).prop_map(|(stalled, timeout_ms, other_object)| Scenario::Busy { stalled, timeout_ms, other_object }),
+        1 => (1u16..6, 20u64..41).prop_map(|(sessions, timeout_ms)| Scenario::Periodic { sessions, timeout_ms }),
     ]
     .boxed()
 }
@@ -351,7 +396,7 @@ pub fn run(eng: &mut Engine) {
     eng.generated(
         PartCfg::new(
             "scenarios",
-            "traffic that keeps objects undecodable: (cache) packets of an FDT-only object whose FDT never comes, N then 3N more packets; (blocks) first block withheld while later blocks complete; (errors) many failing objects vs max_objects_error after every push; (cleanup) stalled objects + FDT instance ids that never complete + idle sessions, residual heap after timeouts+cleanup at scale 1 vs scale 4; (busy) stalled objects in a session that keeps receiving complete FDT instances for other objects (and optionally another object's packets) more often than the 20-40 ms object timeout, cleanup after each, for 2x the timeout + 30 ms; limits 4 KiB..300 KiB, timeouts 2-8 ms; non-trivial = the configured limit was reached / stalled state existed; distinct by scenario",
+            "traffic that keeps objects undecodable: (cache) packets of an FDT-only object whose FDT never comes, N then 3N more packets; (blocks) first block withheld while later blocks complete; (errors) many failing objects vs max_objects_error after every push; (cleanup) stalled objects + FDT instance ids that never complete + idle sessions, residual heap after timeouts+cleanup at scale 1 vs scale 4; (busy) stalled objects in a session that keeps receiving complete FDT instances for other objects (and optionally another object's packets) more often than the 20-40 ms object timeout, cleanup after each, for 2x the timeout + 30 ms; (periodic) idle sessions with a 20-40 ms session timeout while cleanup() is called every quarter of it; limits 4 KiB..300 KiB, timeouts 2-8 ms; non-trivial = the configured limit was reached / stalled state existed; distinct by scenario",
             tier.pick(8000, 120_000),
         )
         .limit_s(120),
